@@ -1420,6 +1420,9 @@ func handleClientMessage(c *webClient, m clientMessage) error {
 			},
 		)
 		if err != nil {
+			// AddClient installs the permissions before it
+			// performs the admission checks
+			c.permissions = nil
 			var e, s string
 			var autherr *group.NotAuthorisedError
 			if errors.Is(err, group.ErrUsernameRequired) {
